@@ -40,7 +40,9 @@ SEdge == Sel("edge", <<>>, <<>>, <<>>)
 SAs(n) == Sel("as", <<>>, <<>>, <<n>>)
 SRecSt(limit, stop, seq, cur) == Sel("recst", <<limit, stop>>, <<>>, <<seq, cur>>)
 
-IdxSeg(i) == <<48 + i>>                    \* decimal string of a one-digit index
+RECURSIVE DecDigits(_)
+DecDigits(i) == IF i < 10 THEN <<48 + i>> ELSE Append(DecDigits(i \div 10), 48 + (i % 10))
+IdxSeg(i) == DecDigits(i)                   \* the decimal string of an index
 \* a list index as a path segment: canonical decimal digits.  Values are only ever compared with small list lengths and
 \* selector indices, so anything longer than three digits stands for "beyond every list" (TLC integers are 32 bits wide,
 \* the segments probed go beyond 2^64)
